@@ -287,6 +287,9 @@ func runC16(r *Run, p *Prog) {
 			if c, ok := op.Chan.Size.(*ssa.Const); ok && c.Int64() >= 1 {
 				capOK = true
 			}
+			if op.closes() {
+				capOK = true // the helper signals by closing the channel: a close never blocks, whatever the capacity
+			}
 			r.Ob("J", fn, "result channel is buffered (capacity >= 1)", op.Chan.Pos(), capOK && op.Chan.Parent() == op.Fn,
 				"with an unbuffered result channel the helper goroutine blocks forever on the paths that return without receiving, and the next operation races with it")
 			// J2: the helper's last action is the send; nothing but the I/O, the send and local moves
@@ -301,6 +304,13 @@ func runC16(r *Run, p *Prog) {
 						seenSend = true
 					case *ssa.Return, *ssa.Jump, *ssa.DebugRef:
 					default:
+						if c, isCall := in.(*ssa.Call); isCall {
+							if bi, isB := c.Call.Value.(*ssa.Builtin); isB && bi.Name() == "close" {
+								sends++ // the close of the completion channel is the helper's signal
+								seenSend = true
+								continue
+							}
+						}
 						if seenSend {
 							after = append(after, p.Pos(x.Pos()))
 						}
